@@ -150,7 +150,7 @@ def check_pollresp(case) -> core.Out:
     ans = codec.ubx_frame(b"\x0a", b"\x04", b"ROM CORE 3.01 (107888)".ljust(30, b"\0") + b"00080000".ljust(10, b"\0"))
     poll = codec.ubx_frame(b"\x0a", b"\x04", b"")
     a, b = socket.socketpair()
-    a.settimeout(90)  # (far longer than the budget below: the receiver never gives up first)
+    a.settimeout(180)  # (far longer than the budget below: the receiver never gives up first)
     got, errs = [], []
 
     def receiver():
@@ -202,7 +202,7 @@ def check_pollresp(case) -> core.Out:
     ths = [threading.Thread(target=f, daemon=True) for f in (receiver, reading, writing)]
     for t in ths:
         t.start()
-    ths[1].join(15)
+    ths[1].join(45)
     hung = ths[1].is_alive()
     try:
         b.close()
@@ -212,7 +212,7 @@ def check_pollresp(case) -> core.Out:
         t.join(2)
     if hung:
         out.viol.append((f"{PROP}|hang|poll-response", f"iteration over a reader whose polls are written by another thread "
-                                                       f"did not end within 15 s ({len(got)} of {n} answers read)"))
+                                                       f"did not end within 45 s ({len(got)} of {n} answers read)"))
     elif len(got) != n or any(g != ans for g in got):
         foreign = [e for e in errs if not isinstance(e, OSError)]
         if foreign:
